@@ -365,24 +365,25 @@ theorem preservation_needs_markEnv :
     obtain ⟨s, hs, _⟩ := (h (stepSelect ["s"] tBad) (by simp [evalStepT])).2.1
     cases hs
 
-/-- PROGRESS fails for `unwind` after a type without a current element, which the type checker
-    admits (`case *gripql.GraphStatement_Unwind` checks nothing): `V().count().unwind("x")` is well
-    typed, the input is well shaped, and the step takes the nil arm of `stepUnwind`.
-    MODEL ≠ CODE here: the model returns no traveler; `Unwind.Process` in engine/core/processors.go
-    (since the fix "processors tolerate travelers without a current element") passes a traveler
-    without a current element through, so Go answers the count row and the model answers nothing. -/
+/-- The strict semantics is undefined for `unwind` after a type without a current element, which
+    the type checker admits (`case *gripql.GraphStatement_Unwind` checks nothing):
+    `V().count().unwind("x")` is well typed and the input is well shaped.  The code (and, since
+    session 3, the model) passes such a traveler on unchanged — `Unwind.Process`:
+    `if t.IsNull() { out <- t; continue }`, after the fix "processors tolerate travelers without a
+    current element" — so this is the one totality branch of `stepUnwind` that well-typed programs
+    do reach. -/
 theorem progress_fails_unwind_after_count :
     typeStep ⟨.count, []⟩ (.unwind "x") = .ok ⟨.count, []⟩ ∧
     WellShaped .count [] { count := 3 } ∧
     evalStepStrict numOf g .count (.unwind "x") [{ count := 3 }] = none ∧
-    evalStepT numOf g .count (.unwind "x") [{ count := 3 }] = [] :=
+    evalStepT numOf g .count (.unwind "x") [{ count := 3 }] = [{ count := 3 }] :=
   ⟨rfl, ⟨rfl, trivial, fun h => by cases h⟩, rfl, rfl⟩
 
-/-- … and the whole traversal `V().count().unwind("x")`: accepted, and the model's answer is no row
-    on every graph. -/
+/-- … and the whole traversal `V().count().unwind("x")`: accepted, and the answer is the count row
+    (model = code; the correspondence run now generates such programs). -/
 theorem unwind_after_count_run :
-    run numOf g [.V [], .count, .unwind "x"] = .ok [] := by
-  simp [run, typeCheck, validate, typeFold, typeStep, evalFrom, evalStepT, stepUnwind]
+    run numOf g [.V [], .count, .unwind "x"] = .ok [Row.count (stepV g [] Traveler.seed).length] := by
+  simp [run, typeCheck, validate, typeFold, typeStep, evalFrom, evalStepT, stepUnwind, convert]
 
 /-- PROGRESS fails for `select` of a mark that was never recorded (the compiler types it `NoData`
     instead of rejecting it): the nil mark is taken. -/
